@@ -471,7 +471,11 @@ impl Gen {
         let n = self.rng.range(1, 4);
         for _ in 0..n {
             match self.rng.below(10) {
-                0 => out.extend_from_slice(&[0xC2, 0x85]),
+                0 => {
+                    // a C1 control character as UTF-8 (C2 80 .. C2 9F)
+                    out.push(0xC2);
+                    out.push(self.rng.range(0x80, 0x9F) as u8);
+                }
                 1 => out.extend_from_slice(&[0xE4, 0xB8]),
                 2 => out.extend_from_slice(&[0xF0, 0x9F, 0x98]),
                 3 => out.extend_from_slice(&[0xC0, 0x80]),
